@@ -499,6 +499,10 @@ def run_part(pid, tier, seed, wd):
             groups = set() if ev.get("ev") == "panic" else attribute(pid, wd, fl, "%s-%d" % (bname, k))
             vlib.log("[reject] splice batch %s run %s at event %d (%s %s): guard groups %s" %
                      (bname, fl["run"], fl["pos_in_run"], ev.get("ev"), ev.get("kind", ""), sorted(groups) or "unattributed"))
+            if os.environ.get("SPLICE_ASSUME_KNOWN") and finding_key(fl):
+                # (development only: go on as if the coordinator had registered the finding in KNOWN_FINDINGS.jsonl)
+                vlib.log("ASSUMED-KNOWN: %s" % finding_key(fl))
+                continue
             script = None
             if args[0] == "--scripts":
                 with open(args[1]) as f:
